@@ -8,7 +8,7 @@ REPLAYERS = {q: 'replayers/shared_values.py' for q in (
     'heap.BufferWrapper.__init__', 'sharedctypes.rebuild_ctype', 'sharedctypes._new_value', 'sharedctypes.RawValue',
     'sharedctypes.RawArray', 'sharedctypes.getvalue', 'sharedctypes.setvalue', 'sharedctypes.getraw', 'sharedctypes.setraw',
     'sharedctypes.SynchronizedBase.__enter__', 'sharedctypes.SynchronizedBase.__exit__', 'sharedctypes.SynchronizedBase.__init__',
-    'sharedctypes.SynchronizedArray.__getitem__', 'sharedctypes.SynchronizedArray.__setitem__')}
+    'sharedctypes.SynchronizedArray.__getitem__', 'sharedctypes.SynchronizedArray.__setitem__', 'sharedctypes.synchronized')}
 REPLAYERS['heap.Heap.malloc'] = 'replayers/heap_ops.py'
 
 ASSUMPTIONS = [
@@ -279,7 +279,8 @@ MANIFEST_ENTRY = {
             'and SynchronizedArray.__getitem__/__setitem__ touch the shared object only while the wrapper\'s own lock is held '
             '(guarded-by obligations on every access), acquire it once and give it back on every way out; '
             'SynchronizedBase.__enter__/__exit__ take and release that same lock; the constructor keeps the lock it is given, '
-            'makes a new one only when none is given, and binds acquire/release to it.  Heap.malloc in a child after fork '
+            'makes a new one only when none is given, and binds acquire/release to it; synchronized() hands the lock it is given '
+            'to the wrapper for every kind of simple value and array (it is also what un-pickling a wrapper calls).  Heap.malloc in a child after fork '
             '(variant fork): the inherited heap -- whose arenas are shared with the parent -- is discarded before anything is '
             'allocated: when the pending blocks are freed and when a block is chosen, the indexes, the live set and the '
             'pending list are empty and the heap carries the child\'s pid (over Heap.__init__\'s contract, C14).',
